@@ -109,6 +109,16 @@ def check_stream(ctx, kind, data, desc, plan, quick, do_model=True):
     ctx.count("keyframes:" + f.get("kf", "?"))
     if f.get("exif", "notfound") != "notfound" or f.get("xml", "notfound") != "notfound":
         ctx.count("streams-with-exif-or-xml")
+    if desc is not None:
+        # the boxes the generator wrote, not what another path of the decoder says
+        want = fl.expected_aux(desc)
+        got = (f.get("exif", "?"), f.get("xml", "?"))
+        if want != got:
+            ctx.violation("auxiliary-data-differs-from-the-boxes-in-the-file",
+                          {"expected_exif_xml": want, "got_exif_xml": got, "boxes": desc.get("aux")},
+                          dict(base, script=f"script read:{hexs}" if len(hexs) < 20000 else "script read:<stream_hex>"),
+                          key="aux:" + ("exif" if want[0] != got[0] else "xml"))
+            return
     bad = evaluate(ctx, kind, what, clean, scripts, metas, outs, base)
     if bad == 0 and do_model and len(data) <= 30000:
         lay = f.get("lay", "-")
